@@ -42,4 +42,12 @@ PROPS = {
         "units": [],
         "assumptions": ["backing store ReadAt/WriteAt atomic", "file size constant; operations within the extent and within one packet"],
     },
+    "C05": {
+        "technique": "request->os-call table (regenerated) equals hand-written Spec; working-directory resolution theorems for all byte strings; differential of Client+Server against package os on twin trees",
+        "level_text": "Lean theorems: server_calls_as_spec (for every request kind the os-backed server performs exactly the corresponding package os call with exactly the path arguments resolved against the working directory; table regenerated from handlePacket and the respond methods), toLocal_* (resolution: absolute paths untouched, relative joined under the working directory, result always absolute for a clean working directory, for all byte strings), adapter_transparent over an arbitrary file-system oracle. Correspondence: PRNG operation sequences of 23 operation kinds through a real Client/Server pair on tree A and through package os on twin tree B, comparing outcome category, returned values and a canonical snapshot after every step, absolute and working-directory-relative.",
+        "level_note": "Trusted: Lean kernel; translator call descriptions (ServerCalls, ServerPaths); kernel and package os are the oracle (not modelled). Partial: client-side composites (Remove fallback, MkdirAll, RemoveAll, Glob, Walk) and error categories end to end are validated by the differential only (error mapping theorems are C10's); uid 0 sandbox reaches permission outcomes only through link(2) of a directory; documented differences are tabulated in the harness (c05Documented).",
+        "units": ["ServerCalls", "ServerPaths"],
+        "assumptions": ["names from a small universe, canonical spellings (non-canonical spellings only with VERIF_C05_NONCANON=1)", "umask 022"],
+        "timeout": {"quick": 600, "thorough": 3600},
+    },
 }
